@@ -220,8 +220,12 @@ def assembly(cx):
     setr = cx.calls(f, r'Edns::set_rcode_high$')
     cx.check('C02.G1', len(setr) == 1, f.path, 'calls', 'edns-rcode-high-set-from-response-code', str(len(setr)))
     for s in setr:
-        m = re.match(r'^Edns::set_rcode_high\((.+),ResponseCode::high\(arg1\.response_code\)\)$', s.term)
-        cx.check('C02.G1', bool(m), f.path, s.key(), 'rcode-high-taken-from-the-message-rcode', s.term, s.loc)
+        m = re.match(r'^Edns::set_rcode_high\((.+),ResponseCode::high\((arg1|var\(\w+\))\.response_code\)\)$', s.term)
+        okm = bool(m)
+        if m and m.group(2) != 'arg1':
+            # a local copy of the metadata is as good, provided its rcode is never written
+            okm = len(cx.assigns(f, r'^arg1$', place=None)) >= 1 and not cx.assigns(f, r'.', place=r'response_code$')
+        cx.check('C02.G1', okm, f.path, s.key(), 'rcode-high-taken-from-the-message-rcode', s.term, s.loc)
         if m:
             cx.check('C02.G1', opt[0].term == f'BinEncoder::emit_iter(arg8,[into<Record>({m.group(1)})])', f.path, opt[0].key(), 'OPT-record-built-from-the-updated-edns', opt[0].term, opt[0].loc)
         cx.must_pass('C02.G1', f, [opt[0]], via_blocks=[s.bb], what='rcode-high-set-before-OPT-is-emitted')
